@@ -12,6 +12,8 @@ CHECKS = {
          "every term of the C01 space is transposed / adjointed through every tower of depth<=3 and left-multiplied by 5 operands; dense forms, shapes, dtypes and products are compared bit-exactly with the reference interpreter"),
  "C03": ("algebraic expressions via the overloads and functional API (10 scalars, ndarray operands, sum(), block_diag, lazify/densify) + scalar/operator + every shape-mismatched ordered leaf pair x 6 constructs",
          "every algebraic expression up to the size bound is built through the Python overloads / functional API and compared bit-exactly (matrix, shape, admissible dtype) with the reference interpreter and differentially with the raw constructors; every incompatible ordered pair of leaves must be rejected by all six sum/product forms"),
+ "C05": ("annotated operator terms (every combination of true declarations, all scalars, A^H A patterns on one object) + declaration wrapper + outputs of lanczos/arnoldi/eig/svd/matrix functions/inv/cholesky/plu for all truncations; truth test on the reference matrix",
+         "every annotation reported by every enumerated operator term or routine output is tested for truth on the exact reference matrix (Hermitian / PSD / unitary / orthonormal columns); the declaration wrapper is checked to leave its argument unchanged"),
 }
 PENDING = {}
 props = [json.loads(l) for l in open(os.path.join(ROOT, "properties.jsonl"))]
